@@ -227,6 +227,19 @@ SPECIAL = [
     (None, "(cl := x + 1) > 1000 or max(cl, 0) > 100", {"x": 5}),
     (None, "(w := x) > 100 or (w := y) > 100 or abs(w) > 50", {"x": 1, "y": 2}),
     (None, "((w := x) + (w := y)) > 100 or [w, w][0] > 50", {"x": 1, "y": 2}),
+    (None, "[x for x in xs] == [99] or abs(x) > 100", {"xs": [1, 2], "x": 5}),
+    (None, "len([n for n in xs if n > 0]) == 0 or (n is not None and abs(n) > 100)", {"xs": [1, 2], "n": 3}),
+    (None, "all(y > 0 for y in xs) and max(y, 0) > 100", {"xs": [1, 2], "y": 5}),
+    (None, "{s: 1 for s in ['k']} == {} or len(s) > 100", {"s": "ab"}),
+    (None, "[o.m(k=e) for e in xs] == [99]", {"xs": [1, 2], "oa": 1}),
+    (None, "all(len(dict(name=e)) > 5 for e in xs)", {"xs": [1, 2]}),
+    (None, "[dict(name=e, other=y) for e in xs] == []", {"xs": [1]}),
+    (None, "all(o.m(k=e) < y for e in xs)", {"xs": [5, 6], "oa": 1, "y": 0}),
+    (["x", "wc"], "(0 <= x < wc) is None", {"x": 1, "wc": "WEIRDCMP"}),
+    (["x", "wc"], "(wc > x >= 0 < wc) is None or x > 100", {"x": 1, "wc": "WEIRDCMP"}),
+    (None, "s != 'ab' and s != '#'", {"s": "ab"}),
+    (None, "not s.startswith('ab') or s == \"# not a comment\"", {"s": "ab"}),
+    (None, "all(not t.startswith('#') for t in [s, '#x'])", {"s": "ab"}),
     (["x", "st"], "[st, x][1] > 100", {"x": 1, "st": "STRICTEQ"}),
     (["x", "st"], "(st, x)[1] > 100", {"x": 1, "st": "STRICTEQ"}),
     (["x", "st"], "len([x, st, x]) > 100 and (x, st) is None", {"x": 1, "st": "STRICTEQ"}),
